@@ -7,10 +7,13 @@ import (
 	"context"
 	"errors"
 	"fmt"
+	"math"
 	"sync"
 
 	"github.com/graphql-go/graphql"
+	"github.com/graphql-go/graphql/gqlerrors"
 	"github.com/graphql-go/graphql/language/ast"
+	"github.com/graphql-go/graphql/language/location"
 
 	"verif/model"
 	"verif/ref"
@@ -94,8 +97,8 @@ type Options struct {
 	// NoResolvers leaves Resolve nil (DefaultResolveFn), for introspection-only schemas.
 	NoResolvers bool
 	// Resolve overrides the resolver of "Type.field".
-	Resolve map[string]graphql.FieldResolveFn
-	Extensions  []graphql.Extension
+	Resolve    map[string]graphql.FieldResolveFn
+	Extensions []graphql.Extension
 }
 
 func copyMap(m map[string]interface{}) map[string]interface{} {
@@ -139,6 +142,12 @@ func New(m *model.Schema, w *ref.World, opt Options) (*Built, error) {
 				Serialize: func(v interface{}) interface{} {
 					if ref.LeafRaises(v) {
 						panic("E:serialize")
+					}
+					switch v {
+					case "SER:NaN":
+						return math.NaN()
+					case "SER:nilptr":
+						return (*string)(nil)
 					}
 					if s, ok := v.(string); ok && len(s) >= 2 && s[:2] == "P:" {
 						return s[2:]
@@ -373,8 +382,14 @@ func (b *Built) resolver(defType string, fd *model.FieldDef) graphql.FieldResolv
 			return nil, nil
 		case "err":
 			return nil, errors.New(r.ErrMsg)
+		case "err_foreign":
+			// an error that was already located and formatted for some other request (what a
+			// delegating resolver returns): its path and location are not this field's
+			inner := gqlerrors.NewErrorWithPath(r.ErrMsg, nil, "", nil, nil, []interface{}{"deep", 7, "boom"}, errors.New(r.ErrMsg))
+			inner.Locations = []location.SourceLocation{{Line: 977, Column: 11}}
+			return nil, gqlerrors.FormatError(inner)
 		case "valerr":
-			return r.Val, errors.New(r.ErrMsg)
+			return materialize(r.Val), errors.New(r.ErrMsg)
 		case "panic_err":
 			panic(errors.New(r.ErrMsg))
 		case "panic_str":
@@ -392,11 +407,37 @@ func (b *Built) resolver(defType string, fd *model.FieldDef) graphql.FieldResolv
 				case "thunk_nil":
 					return nil, nil
 				}
-				return r.Val, nil
+				return materialize(r.Val), nil
 			}, nil
 		}
-		return r.Val, nil
+		return materialize(r.Val), nil
 	}
+}
+
+// materialize turns the deferred list elements of a World value into real deferred values.
+func materialize(v interface{}) interface{} {
+	switch x := v.(type) {
+	case ref.ElemThunk:
+		inner := materialize(x.V)
+		return func() (interface{}, error) { return inner, nil }
+	case []interface{}:
+		has := false
+		for _, e := range x {
+			switch e.(type) {
+			case ref.ElemThunk, []interface{}:
+				has = true
+			}
+		}
+		if !has {
+			return v
+		}
+		out := make([]interface{}, len(x))
+		for i, e := range x {
+			out[i] = materialize(e)
+		}
+		return out
+	}
+	return v
 }
 
 func (b *Built) resolveType(abstract string) graphql.ResolveTypeFn {
